@@ -151,7 +151,13 @@ def run(dst, harnesses, timeout_s=600, jobs=8, playback=True):
         cmd += ["--harness", h]
     t0 = time.time()
     try:
-        p = subprocess.run(cmd, cwd=dst, env=env, capture_output=True, text=True,
+        # address-space limit per process (CBMC): a harness that grows without bound ends with
+        # "out of memory" (-> UNDECIDED) instead of taking the machine down
+        def _limit():
+            import resource
+            lim = 24 * 1024 * 1024 * 1024
+            resource.setrlimit(resource.RLIMIT_AS, (lim, lim))
+        p = subprocess.run(cmd, cwd=dst, env=env, capture_output=True, text=True, preexec_fn=_limit,
                            timeout=timeout_s * max(1, (len(harnesses) + jobs - 1) // jobs) + 600)
         out = p.stdout + "\n" + p.stderr
         rc = p.returncode
@@ -219,6 +225,12 @@ def parse_output(out, harnesses, rc, wall, cmd):
                 if re.search(r"CBMC timed out|out of memory|Killed|timed out", b):
                     r["status"] = "undecided"
                     r["reason"] = "solver timeout or OOM"
+                elif not r["failed_checks"]:
+                    # CBMC crashed or was killed (e.g. by the kernel's OOM killer): Kani prints
+                    # FAILED without naming a failed check -- that is not a verdict
+                    r["status"] = "undecided"
+                    r["reason"] = "kani reported FAILED without any failed check (solver crashed or was killed)"
+                    r["raw"] = b[-1500:]
                 elif r["failed_checks"] and all("unwinding assertion" in f["description"] for f in r["failed_checks"]):
                     r["status"] = "undecided"
                     r["reason"] = "unwinding bound too small for the current code"
